@@ -39,6 +39,8 @@ def ev(node, env):
         return float(node[1]) if ('.' in node[1] or 'E' in node[1].upper()) else int(node[1])
     if k == 'ref':
         return env.get(node[1])
+    if k == 'lit':
+        return node[2]
     if k == 'neg':
         v = R.apply('neg', ev(node[1], env))
     elif k == 'pos':
@@ -95,7 +97,7 @@ def ev(node, env):
 def render(node, style, parent_prec=0, side=None):
     """style: 'min' | 'full' | 'double' ; spacing/case handled afterwards"""
     k = node[0]
-    if k == 'num' or k == 'ref':
+    if k == 'num' or k == 'ref' or k == 'lit':
         return node[1]
     if k == 'neg' or k == 'pos':
         sign = '-' if k == 'neg' else '+'
@@ -182,6 +184,8 @@ def renderings(node):
     yield 'min', m
     yield 'full', f
     yield 'double', render(node, 'double')
+    if "'lit'" in repr(node):
+        return          # the character-level spacer would split "#DIV/0!" or "-2.5"
     yield 'spaces', spaced(m)
     yield 'lower', m.replace('SUM(', 'sum(').replace('IF(', 'If(')
 
@@ -235,6 +239,11 @@ def decorate(node, path, deco):
 def asts(thorough):
     leaf_sets = [ATOMS, [('ref', 'A1'), ('ref', 'B1'), ('num', '5'), ('num', '2')],
                  [('num', '3'), ('sum', [('num', '2'), ('ref', 'A1')]), ('if', ('bin', '<', ('ref', 'A1'), ('num', '3')), ('num', '5'), ('ref', 'B1')), ('num', '2')]]
+    # text, logical and error LITERALS as operands (an operator applied to a literal is compiled differently from one
+    # applied to a reference or a number)
+    leaf_sets.append([('lit', '"3"', '3'), ('lit', 'TRUE', True), ('num', '2'), ('lit', '#N/A', '#N/A')])
+    leaf_sets.append([('lit', '"abc"', 'abc'), ('lit', '""', ''), ('lit', 'FALSE', False), ('lit', '#DIV/0!', '#DIV/0!')])
+    leaf_sets.append([('lit', '"-2.5"', '-2.5'), ('ref', 'A1'), ('lit', '"B"', 'B'), ('num', '0.5')])
     for n in (1, 2):
         for shape in shapes(n):
             for ops in itertools.product(BINOPS, repeat=n):
